@@ -76,6 +76,7 @@ type World struct {
 	EscrowMA string // bech32 of the escrow module account
 	BlockLog []BlockRec
 	blockStart *Snap
+	genesisTime time.Time
 	GenesisHeight int64
 	curBlock *BlockRec
 }
@@ -122,7 +123,7 @@ func NewWorld(r *core.Run, nrep int) *World {
 			addr := sdk.AccAddress(priv.PubKey().Address())
 			a := &Actor{Name: fmt.Sprintf("%s%d", role[:1], i), Role: role, Priv: priv, Addr: addr, Bech: addr.String()}
 			// most accounts are rich relative to the deposits; some deliberately poor
-			switch r.Choose(4, "knob.funds") {
+			switch r.Weighted([]int{6, 0, 1, 1}, "knob.funds") {
 			case 0, 1:
 				a.Funds = 40 * maxI64(w.Knobs.DeploymentMinDeposit, w.Knobs.BidMinDeposit)
 			case 2:
@@ -141,6 +142,7 @@ func NewWorld(r *core.Run, nrep int) *World {
 	add("bystander", 1)
 
 	w.Genesis = w.buildGenesis()
+	w.genesisTime = w.Time
 	for i := 0; i < nrep; i++ {
 		w.Reps = append(w.Reps, w.bootReplica(w.Genesis))
 	}
@@ -219,12 +221,22 @@ func (w *World) bootReplica(genesis []byte) *Replica {
 	a.InitChain(abci.RequestInitChain{
 		ChainId:         ChainID,
 		Time:            w.Time,
-		ConsensusParams: simapp.DefaultConsensusParams,
+		ConsensusParams: consensusParams(),
 		Validators:      []abci.ValidatorUpdate{},
 		AppStateBytes:   genesis,
 	})
 	a.Commit()
 	return &Replica{App: a, DB: db}
+}
+
+// consensusParams: simapp's defaults with an unlimited block gas limit (the 2,000,000 default of the
+// test helper is not a property of the application and would make multi-transaction blocks fail).
+func consensusParams() *abci.ConsensusParams {
+	d := *simapp.DefaultConsensusParams
+	blk := *d.Block
+	blk.MaxGas = -1
+	d.Block = &blk
+	return &d
 }
 
 func (w *World) accountKeeper(rep *Replica) authkeeper.AccountKeeper {
